@@ -65,6 +65,9 @@ func seqStep(state, input, output interface{}) (bool, interface{}) {
 	out := output.(seqOut)
 	u, exists := st[in.User]
 	switch in.Kind {
+	case "reauth":
+		// an update request that carries only the old password: answered like a login, changes nothing
+		return out.OK == (exists && u.PW == in.PW), state
 	case "authenticate":
 		want := exists && u.PW == in.PW
 		if out.OK != want {
@@ -183,7 +186,15 @@ func propC11(r *Run) {
 			for k := 0; k < n && total < 34; k++ {
 				u := users[r.Choose("call-user", len(users))]
 				c := &Call{Agent: a.idx, User: u, Via: "agent"}
-				switch r.Choose("call-kind", 12) {
+				switch r.Choose("call-kind", 13) {
+				case 12:
+					c.Kind, c.PW = "authenticate", model[u].PW
+					if len(vias) > 1 && c.PW != "" {
+						c.Kind, c.Via = "reauth", "api"
+					}
+					if pwn > 0 && r.Choose("pw-choice", 2) == 1 {
+						c.PW = fmt.Sprintf("pw-%02d", r.Choose("which-pw", pwn))
+					}
 				case 0, 1, 2, 3, 4:
 					c.Kind = "authenticate"
 					c.Via = vias[r.Choose("via", len(vias))]
